@@ -41,6 +41,7 @@ inductive Repl
   | cb (k : Nat)         -- `Apply(func(a) { return a + k })`
   | cbo (k : Nat)        -- `Origin(&o).Apply(func(a) { return o(a) + k })` : callback calls the origin placeholder
   | tab (v : Nat)        -- `Return(v).When(1).Return(v+1).When(2).Return(v+2)` : argument-dependent result table
+  | tin (v : Nat)        -- `Return(v).In(1, 2).Return(v+5)` : a ContainsMatcher condition
   deriving DecidableEq, Repr, Inhabited
 
 /-- content of the 13 entry bytes of a location (targets) or of a placeholder body -/
@@ -67,6 +68,7 @@ inductive Sec
   | apply (f : Loc)
   | unpatch (f : Loc)
   | call (f : Loc) (a : Nat)
+  | retab (f : Loc)      -- `When.Matches(..)` on the builder's existing mock of `f` (when.go:171): no lock, no text byte changes
   deriving DecidableEq, Repr, Inhabited
 
 /-- the three raw text writes goom performs -/
@@ -84,10 +86,13 @@ inductive MI
   deriving DecidableEq, Repr, Inhabited
 
 inductive WStep
-  | protW (pg : Nat)   -- mprotect(page, R|W|X)   mwrite_amd64.go:24
-  | copy               -- mwrite_amd64.go:31
-  | protX (pg : Nat)   -- mprotect(page, R|X)     mwrite_amd64.go:32
+  | prot (pg : Nat) (p : Perm)   -- mprotect(page, prot): the protection is DATA of the script, not of the step semantics
+  | copy                         -- mwrite_amd64.go:31
   deriving DecidableEq, Repr, Inhabited
+
+/-- PROT_READ|PROT_WRITE|PROT_EXEC (mwrite_amd64.go:24) and PROT_READ|PROT_EXEC (mwrite_amd64.go:32) -/
+def permRWX : Perm := { w := true, x := true }
+def permRX : Perm := { w := false, x := true }
 
 /-- shared variables whose accesses are logged for the lockset statement -/
 inductive Var
@@ -139,6 +144,7 @@ def bodyOf : Sec → List MI
   | .apply f => [.setApplied f, .write (.jump f)]
   | .unpatch f => [.write (.restore f)]
   | .call _ _ => []
+  | .retab _ => []
 
 def wloc (L : Layout) : WKind → Loc
   | .jump f => f
@@ -147,7 +153,7 @@ def wloc (L : Layout) : WKind → Loc
 
 /-- mwrite_amd64.go:19-38 + mwrite_unix.go:11-20 -/
 def wscript (L : Layout) (k : WKind) : List WStep :=
-  (L.pages (wloc L k)).map .protW ++ [.copy] ++ (L.pages (wloc L k)).map .protX
+  (L.pages (wloc L k)).map (WStep.prot · permRWX) ++ [.copy] ++ (L.pages (wloc L k)).map (WStep.prot · permRX)
 
 /-- is the WriteTo performed at all?  guard.go:37 `if g != nil && g.applied` for restore -/
 def wcond (s : St) : WKind → Bool
@@ -167,6 +173,7 @@ def callAt (L : Layout) (s : St) (f a : Nat) : Option Nat :=
     | .jump (.ret v) => some v
     | .jump (.cb k) => some (a + k)
     | .jump (.tab v) => some (if a = 1 then v + 1 else if a = 2 then v + 2 else v)
+    | .jump (.tin v) => some (if a = 1 ∨ a = 2 then v + 5 else v)
     | .jump (.cbo k) =>
       if allX s (L.pages (L.plh f)) then
         match s.text (L.plh f) with
@@ -184,8 +191,7 @@ def logAcc (s : St) (t : Tid) (v : Var) (wr : Bool) : St :=
 /-- one phase of WriteTo -/
 def execW (L : Layout) (t : Tid) (k : WKind) (ws : WStep) (s : St) : St :=
   match ws with
-  | .protW pg => logAcc { s with perm := upd s.perm pg { w := true, x := true } } t .perm true
-  | .protX pg => logAcc { s with perm := upd s.perm pg { w := false, x := true } } t .perm true
+  | .prot pg p => logAcc { s with perm := upd s.perm pg p } t .perm true
   | .copy =>
     let s := logAcc s t .text true
     match k with
@@ -213,6 +219,19 @@ def execT (t : Tid) (mi : MI) (s : St) : St :=
     | none => { s with faults := (t, f) :: s.faults }
   | .write _ => s
 
+/-- `When.Matches` turns a plain `Return(v)` mock into the table `tab v`; other replacements are not extended by the probe.
+    `Content.jump r` stands for "jump to the replacement object whose CURRENT behaviour is r": the object is builder-private
+    heap state, so changing it is neither a text write nor a patch-table access of the Go code. -/
+def retabR : Repl → Repl
+  | .ret v => .tab v
+  | r => r
+
+def retabC : Content → Content
+  | .jump r => .jump (retabR r)
+  | c => c
+
+def retabG (g : Guard) : Guard := { g with repl := retabR g.repl }
+
 /-- one scheduler slot for thread `t` -/
 def step (L : Layout) (prog : Tid → List Sec) (t : Tid) (s : St) : St :=
   let h := s.th t
@@ -224,6 +243,9 @@ def step (L : Layout) (prog : Tid → List Sec) (t : Tid) (s : St) : St :=
       match sec with
       | .call f a =>
         setTh { s with calls := (t, h.ip, callAt L s f a) :: s.calls } t { h with ip := h.ip + 1 }
+      | .retab f =>
+        setTh { s with patches := upd s.patches f ((s.patches f).map retabG),
+                       text := upd s.text f (retabC (s.text f)) } t { h with ip := h.ip + 1 }
       | _ =>
         if s.lockP = none then setTh { s with lockP := some t } t { h with cur := some 0 }    -- lock()
         else s                                                                                 -- blocked
@@ -261,6 +283,7 @@ def writesOf (L : Layout) : Sec → List Loc
   | .apply f => [f]
   | .unpatch f => [f]
   | .call _ _ => []
+  | .retab f => [f]
 
 /-- locations a section reads or modifies -/
 def mentionsOf (L : Layout) : Sec → List Loc
@@ -268,6 +291,7 @@ def mentionsOf (L : Layout) : Sec → List Loc
   | .apply f => [f, L.plh f]
   | .unpatch f => [f, L.plh f]
   | .call f _ => [f, L.plh f]
+  | .retab f => [f, L.plh f]
 
 def Writes (L : Layout) (prog : Tid → List Sec) (t : Tid) (f : Loc) : Prop := ∃ sec ∈ prog t, f ∈ writesOf L sec
 def Mentions (L : Layout) (prog : Tid → List Sec) (t : Tid) (f : Loc) : Prop := ∃ sec ∈ prog t, f ∈ mentionsOf L sec
@@ -285,18 +309,23 @@ inductive BOp
   | mock (f : Loc) (r : Repl) (wo : Bool)
   | chk
   | reset
+  | ext (f : Loc)        -- `When.Matches(..)` on the existing plain-Return mock of `f` (only possible for a target mocked before)
   deriving DecidableEq, Repr, Inhabited
 
 def insertSorted (x : Nat) : List Nat → List Nat
   | [] => [x]
   | y :: ys => if x < y then x :: y :: ys else if x = y then y :: ys else y :: insertSorted x ys
 
+/-- `chk`: the builder calls each of its own targets with a default-hitting and a table-hitting argument -/
+def chkSecs (tg : List Loc) : List Sec := tg.flatMap (fun f => [Sec.call f 3, Sec.call f 1])
+
 /-- sections of a builder program; `m` = targets in the builder's mocker map so far -/
 def compileOps (tg : List Loc) : List BOp → List Loc → List Sec
   | [], _ => []
   | .mock f r wo :: rest, m => [.replace f r wo, .apply f] ++ compileOps tg rest (insertSorted f m)
-  | .chk :: rest, m => tg.map (fun f => Sec.call f 3) ++ compileOps tg rest m
+  | .chk :: rest, m => chkSecs tg ++ compileOps tg rest m
   | .reset :: rest, m => m.map Sec.unpatch ++ compileOps tg rest m
+  | .ext f :: rest, m => (if f ∈ m then [Sec.retab f] else []) ++ compileOps tg rest m
 
 def mockedAfter : List BOp → List Loc → List Loc
   | [], m => m
@@ -305,6 +334,6 @@ def mockedAfter : List BOp → List Loc → List Loc
 
 /-- the program class of the generator: any operation sequence, then `reset` and a final check of all own targets -/
 def builderProg (tg : List Loc) (ops : List BOp) : List Sec :=
-  compileOps tg ops [] ++ ((mockedAfter ops []).map Sec.unpatch ++ tg.map (fun f => Sec.call f 3))
+  compileOps tg ops [] ++ ((mockedAfter ops []).map Sec.unpatch ++ chkSecs tg)
 
 end Conc
